@@ -62,7 +62,8 @@ def main():
             elif own in fired and own not in infra:
                 print("caught  %s by %s: %s" % (name, " ".join(sorted(fired)), "; ".join(fired[own][:3])))
             else:
-                print("caught* %s by %s (not by its own property %s)" % (name, " ".join(sorted(fired)), own)); bad = 1
+                print("caught* %s by %s (not by its own property %s): %s" % (name, " ".join(sorted(fired)), own,
+                                                                              "; ".join("%s %s" % (p_, k_[0]) for p_, k_ in sorted(fired.items())))); bad = 1
             if infra:
                 print("  INFRA error in %s: %s" % (infra, fired[infra[0]]))
     return bad
